@@ -119,6 +119,9 @@ type ChanObj struct {
 	TimerD  *Term
 	Fired   bool
 	Ready   bool // one-shot readiness granted by FireTimers
+	At      *Term // symbolic clock mode: the instant at which the timer expires (clock at creation + duration)
+	AtVer   int   // clock version for which AtReady was decided (+1; 0 = never)
+	AtReady bool
 	Label   string
 	Waiters int
 }
